@@ -25,6 +25,15 @@ type capCore struct {
 	fired    string
 	fileMode string // "all" | "base" | "only:<Iface>"
 	short    bool   // buggify: a failing Write accepts a prefix first
+	// readShape (buggify, legal io.Reader behaviour): 0 as the inner file, 1 at most half the buffer,
+	// 2 one byte at a time, 3 the last bytes come together with io.EOF
+	readShape  int
+	label      string
+	opens      map[string]int // successful Open calls per name
+	reads      map[string]int // Read calls per name
+	writing    map[string]int // handles open for writing, per name
+	maxWriting int
+	lossyClose bool // a failing Close of a written file loses the second half of it
 }
 
 func capKey(ifs []string) string {
@@ -43,7 +52,7 @@ func indexOf(l []string, s string) int {
 }
 
 func (c *capCore) hit(kind, name string) error {
-	yield("fs." + kind + " " + name)
+	yield(c.label + "fs." + kind + " " + name)
 	i := len(c.calls)
 	c.calls = append(c.calls, kind+" "+name)
 	if i == c.faultAt && c.fired == "" {
@@ -63,6 +72,9 @@ func (c *capCore) Open(name string) (hackpadfs.File, error) {
 	if err != nil {
 		return nil, err
 	}
+	if c.opens != nil {
+		c.opens[name]++
+	}
 	return c.wrapFile(f, name), nil
 }
 
@@ -74,7 +86,26 @@ func (c *capCore) openFile(name string, flag int, perm hackpadfs.FileMode) (hack
 	if err != nil {
 		return nil, err
 	}
-	return c.wrapFile(f, name), nil
+	w := c.wrapFile(f, name)
+	if flag&3 != 0 && c.writing != nil {
+		c.writing[name]++
+		if c.writing[name] > c.maxWriting {
+			c.maxWriting = c.writing[name]
+		}
+		markWriter(w)
+	}
+	return w, nil
+}
+
+func markWriter(f hackpadfs.File) {
+	switch x := f.(type) {
+	case *capFileBase:
+		x.writer = true
+	case capFileAll:
+		x.capFileBase.writer = true
+	case capFileWrite:
+		x.capFileBase.writer = true
+	}
 }
 
 func (c *capCore) create(name string) (hackpadfs.File, error) {
@@ -184,14 +215,45 @@ func (c *capCore) mount(name string) (hackpadfs.FS, string) { return c.inner, na
 
 // capFileBase exposes only the mandatory File methods.
 type capFileBase struct {
-	c     *capCore
-	inner hackpadfs.File
-	name  string
+	c      *capCore
+	inner  hackpadfs.File
+	name   string
+	writer bool
+	closed bool
 }
 
 func (f *capFileBase) Read(p []byte) (int, error) {
 	if err := f.c.hit("file.Read", f.name); err != nil {
 		return 0, err
+	}
+	if f.c.reads != nil {
+		f.c.reads[f.name]++
+	}
+	switch {
+	case len(p) == 0:
+		return f.inner.Read(p)
+	case f.c.readShape == 1 && len(p) > 1:
+		return f.inner.Read(p[:(len(p)+1)/2])
+	case f.c.readShape == 2:
+		return f.inner.Read(p[:1])
+	case f.c.readShape == 3:
+		n, err := f.inner.Read(p)
+		if err == nil && n > 0 {
+			// peek: if nothing is left, report EOF together with these bytes
+			var one [1]byte
+			if seeker, ok := f.inner.(interface {
+				Seek(int64, int) (int64, error)
+			}); ok {
+				m, perr := f.inner.Read(one[:])
+				if m == 0 && perr != nil {
+					return n, perr
+				}
+				if m > 0 {
+					seeker.Seek(-int64(m), 1)
+				}
+			}
+		}
+		return n, err
 	}
 	return f.inner.Read(p)
 }
@@ -202,7 +264,21 @@ func (f *capFileBase) Stat() (hackpadfs.FileInfo, error) {
 	return f.inner.Stat()
 }
 func (f *capFileBase) Close() error {
-	if err := f.c.hit("file.Close", f.name); err != nil {
+	if f.writer && !f.closed && f.c.writing != nil {
+		f.c.writing[f.name]--
+	}
+	f.closed = true
+	kind := "file.Close"
+	if f.writer {
+		kind = "file.CloseWritten"
+	}
+	if err := f.c.hit(kind, f.name); err != nil {
+		if f.writer && f.c.lossyClose {
+			// a failing close of a written file: the tail that was still buffered is lost
+			if info, serr := f.inner.Stat(); serr == nil {
+				hackpadfs.TruncateFile(f.inner, info.Size()/2)
+			}
+		}
 		f.inner.Close()
 		return err
 	}
